@@ -686,7 +686,10 @@ const UNCOMPUTABLE: [u64; 3] = [0x00, 0x11, 0x9999];
 /// answers with ONE response that carries `presences` DontHave entries (so many that their message cannot be sent in one
 /// piece when `presences` is large) followed by the three blocks. Whatever happens to the presences, every block fits a
 /// message and must be delivered once, unaltered, under the identifier derived from its bytes.
-fn response_end_to_end(ctx: &mut Ctx, presences: usize) {
+/// `slow`: the blocks are three of 1.2 MiB (three messages, each larger than the yamux window) and the link towards the
+/// client carries 200 KiB per second of virtual time, so each message is accepted within ~6 s (well inside the 15 s write
+/// timeout that applies to each message) while the whole response takes ~17 s: every block must still arrive exactly once.
+fn response_end_to_end(ctx: &mut Ctx, presences: usize, slow: bool) {
     use crate::env::simnet::{NodeCmd, World};
     use litep2p::{
         config::ConfigBuilder,
@@ -705,7 +708,8 @@ fn response_end_to_end(ctx: &mut Ctx, presences: usize) {
         let addr_s = w.nodes[sv].address.clone();
         let blocks: Vec<(Cid, Vec<u8>)> = (0..3usize)
             .map(|i| {
-                let data: Vec<u8> = (0..(40_000 + i * 1000)).map(|k| (k as u8) ^ (i as u8 + 1)).collect();
+                let len = if slow { 1_200_000 + i * 1000 } else { 40_000 + i * 1000 };
+                let data: Vec<u8> = (0..len).map(|k| (k as u8) ^ (i as u8 + 1)).collect();
                 (Cid::new_v1(0x55, Multihash::wrap(0x12, &Sha256::digest(&data)).expect("sha256 multihash")), data)
             })
             .collect();
@@ -745,9 +749,35 @@ fn response_end_to_end(ctx: &mut Ctx, presences: usize) {
             }
         });
         let _ = peer_c;
+        if slow {
+            // the link towards the client: 200 KiB per tick of 1 s
+            let towards_client: Vec<crate::env::pipe::PipeHandle> = w
+                .links
+                .iter()
+                .map(|l| if l.a == c { l.b_to_a.clone() } else { l.a_to_b.clone() })
+                .collect();
+            for _tick in 0..60 {
+                for h in &towards_client {
+                    h.set_policy(|p| p.read_quota = Some(200 * 1024));
+                }
+                w.run_to_quiescence(5_000_000);
+                if std::env::var_os("C20_DEBUG").is_some() {
+                    eprintln!("tick {_tick}: links {} read so far {:?} blocks at client {}", towards_client.len(), towards_client.iter().map(|h| h.stats().bytes_read).collect::<Vec<_>>(), got.lock().len());
+                }
+                rt.block_on(async { tokio::time::advance(std::time::Duration::from_secs(1)).await });
+            }
+            for h in &towards_client {
+                h.set_policy(|p| p.read_quota = None);
+            }
+        }
         w.run_to_quiescence(5_000_000);
         let got = got.lock().clone();
-        let desc = format!("{presences} presences + 3 blocks in one response; the client received {} block(s)", got.len());
+        let desc = format!(
+            "{presences} presences + {} blocks in one response{}; the client received {} block(s)",
+            blocks.len(),
+            if slow { " over a link of 200 KiB/s (each message within the per-message write timeout, the response as a whole not)" } else { "" },
+            got.len()
+        );
         for (cid, data) in &got {
             match blocks.iter().find(|(c, _)| c == cid) {
                 Some((_, d)) if d == data => {}
@@ -767,11 +797,11 @@ fn response_end_to_end(ctx: &mut Ctx, presences: usize) {
         Ok((got.len(), w.driver.steps as usize))
     })
     .join();
-    let replay = json!({"kind": "bitswap-response-end-to-end", "presences": presences});
+    let replay = json!({"kind": "bitswap-response-end-to-end", "presences": presences, "slow_link": slow});
     match result {
         Ok(Ok((n, steps))) => {
             ctx.cov_add("evaluations", 1);
-            ctx.sub(&format!("response_end_to_end[{presences} presences]"), json!({"blocks_delivered": n, "driver_steps": steps}));
+            ctx.sub(&format!("response_end_to_end[{presences} presences{}]", if slow { ", slow link" } else { "" }), json!({"blocks_delivered": n, "driver_steps": steps}));
         }
         Ok(Err((sig, what))) if sig.starts_with("machinery/") => ctx.machinery_error(format!("{sig}: {what}")),
         Ok(Err((sig, what))) => ctx.violation(Violation { signature: sig, what, replay }),
@@ -1331,8 +1361,9 @@ pub fn run(ctx: &mut Ctx) {
     acc.ctx.sub("batching_protobuf_overhead", json!({"cases": b3_cases, "result": overhead_report}));
 
     // ---------------------------------------------------------------- the real protocol end to end
-    response_end_to_end(acc.ctx, 10);
-    response_end_to_end(acc.ctx, 120_000);
+    response_end_to_end(acc.ctx, 10, false);
+    response_end_to_end(acc.ctx, 120_000, false);
+    response_end_to_end(acc.ctx, 10, true);
 
     // ---------------------------------------------------------------- totals
     let evaluations = acc.evaluations;
